@@ -192,6 +192,8 @@ class View:
                 return cell
             if isinstance(cell, PyDict):
                 return {k: self._wrap(x) for k, x in cell.items.items()}
+        if isinstance(v, View):
+            return v
         if isinstance(v, tuple):
             return tuple(self._wrap(x) for x in v)
         if isinstance(v, list):
@@ -263,8 +265,10 @@ class Pure:
     """a lemma of a hint chain that is proved from the listed hypotheses ONLY (plus the spec-function axioms), not
     from the path condition: keeps unfolding steps of spec sums away from the quantified facts of the state"""
 
-    def __init__(self, goal, hyps=(), ground=False):
+    def __init__(self, goal, hyps=(), ground=False, guards=(), given=()):
         self.goal, self.hyps, self.ground = goal, list(hyps), ground
+        self.guards = list(guards)      # index ranges of enclosing ForallH(...): the hypotheses are needed under them only
+        self.given = list(given)
 
 
 class Congr:
@@ -272,8 +276,10 @@ class Congr:
     current hypotheses) conclude  Sum(lo,hi,f) == Sum(lo,hi,g).  The rule itself is the induction proved once for
     arbitrary f, g as lemma `sum_congruence` (contracts/kernels.py)."""
 
-    def __init__(self, pointwise, concl):
+    def __init__(self, pointwise, concl, hyps=None):
         self.pointwise, self.concl = pointwise, concl
+        self.hyps = None if hyps is None else list(hyps)   # given: the pointwise step is proved from these facts only
+        self.guards = []
 
 
 class Scoped:
@@ -711,7 +717,18 @@ class Ctx:
         clo, chi = conc_int(lo), conc_int(hi)
         if self.mode == 'conc' or (clo is not None and chi is not None and chi - clo <= 64):
             outs = [f(k) for k in range(clo, chi)]
-            return self.And(*[(o.goal if isinstance(o, Hinted) else o) for o in outs])
+            goal = self.And(*[(o.goal if isinstance(o, Hinted) else o) for o in outs])
+            hinted = [o for o in outs if isinstance(o, Hinted)]
+            if not hinted or self.mode == 'conc' or getattr(self, 'assuming', False):
+                return goal
+            # a concrete range: the lemma chains of all its instances, one after the other
+            lemmas, defs, skolems = [], [], []
+            for o in hinted:
+                lemmas += list(o.lemmas)
+                defs += list(o.defs)
+                skolems += list(o.skolems)
+            fu = sum(o.final_uses for o in hinted) if all(o.final_uses is not None for o in hinted) and len(hinted) == 1 else None
+            return Hinted(goal, lemmas, defs, skolems, fu)
         if getattr(self, 'assuming', False):
             # a callee's postcondition assumed at a call site is the real universal statement
             return self.Forall(lo, hi, lambda k: (lambda o: o.goal if isinstance(o, Hinted) else o)(f(k)))
@@ -721,11 +738,21 @@ class Ctx:
         if isinstance(o, Scoped):
             raise EngineError('scope(...) goes outside ForallH(...)')
         if isinstance(o, Hinted):
-            return Hinted(self.Implies(rng, o.goal),
-                          [Pure(self.Implies(rng, l.goal), l.hyps, l.ground) if isinstance(l, Pure) else
-                           (Congr(self.Implies(rng, l.pointwise), self.Implies(rng, l.concl)) if isinstance(l, Congr) else
-                            self.Implies(rng, l)) for l in o.lemmas], o.defs, [i] + o.skolems, o.final_uses)
+            return self._guard(rng, o, [i])
         return Hinted(self.Implies(rng, o), [], (), [i])
+
+    def _guard(self, rng, o, sk):
+        def wrap(l):
+            if isinstance(l, Pure):
+                return Pure(self.Implies(rng, l.goal), l.hyps, l.ground, [rng] + l.guards, l.given)
+            if isinstance(l, Congr):
+                r = Congr(self.Implies(rng, l.pointwise), self.Implies(rng, l.concl), l.hyps)
+                r.guards = [rng] + l.guards
+                return r
+            if isinstance(l, Hinted):
+                return self._guard(rng, l, [])
+            return self.Implies(rng, l)
+        return Hinted(self.Implies(rng, o.goal), [wrap(l) for l in o.lemmas], o.defs, sk + o.skolems, o.final_uses)
 
     def scope(self, goal, *keep):
         if self.mode != 'sym':
@@ -752,12 +779,16 @@ class Ctx:
             return True
         ps = list(app.children())[2:]
         lo_t, hi_t = app.arg(0), app.arg(1)
-        return z3.Implies(hi_t > lo_t, app == sf.f(lo_t, hi_t - 1, *ps) + sf.body(hi_t - 1, *ps))
+        r = z3.Implies(hi_t > lo_t, app == sf.f(lo_t, hi_t - 1, *ps) + sf.body(hi_t - 1, *ps))
+        if not hasattr(self, 'axiom_inst'):
+            self.axiom_inst = []
+        self.axiom_inst.append(r)
+        return r
 
-    def congr(self, lo, hi, f, g):
+    def congr(self, lo, hi, f, g, given=None):
         if self.mode != 'sym':
             return True
-        return Congr(self.Forall(lo, hi, lambda k: to_real(f(k)) == to_real(g(k))), self.Sum(lo, hi, f) == self.Sum(lo, hi, g))
+        return Congr(self.Forall(lo, hi, lambda k: to_real(f(k)) == to_real(g(k))), self.Sum(lo, hi, f) == self.Sum(lo, hi, g), given)
 
     def pure_ground(self, goal, *hyps):
         return Pure(goal, hyps, ground=True) if self.mode == 'sym' else goal
